@@ -2,7 +2,7 @@
 observation minima, claimed level."""
 
 
-def native(tier, shards=16, profile="monitor", timeout=3600, name=None):
+def native(tier, shards=16, profile="monitor", timeout=10800, name=None):
     return {"name": name or ("native-" + profile), "kind": "native", "profile": profile, "tier": tier,
             "shards": shards, "wall_timeout_s": timeout}
 
@@ -13,17 +13,17 @@ def native(tier, shards=16, profile="monitor", timeout=3600, name=None):
 MIRI_DEFAULT_FLAGS = "-Zmiri-disable-stacked-borrows"
 
 
-def miri(shards=16, timeout=3600, flags=MIRI_DEFAULT_FLAGS, name="miri"):
+def miri(shards=16, timeout=10800, flags=MIRI_DEFAULT_FLAGS, name="miri"):
     return {"name": name, "kind": "miri", "profile": "miri", "tier": "miri", "shards": shards,
             "wall_timeout_s": timeout, "miriflags": flags}
 
 
-def asan(shards=16, timeout=3600, name="asan"):
+def asan(shards=16, timeout=10800, name="asan"):
     return {"name": name, "kind": "asan", "profile": "monitor", "tier": "asan", "shards": shards,
             "wall_timeout_s": timeout}
 
 
-def asan_all(shards=2, timeout=3600):
+def asan_all(shards=2, timeout=10800):
     return {"name": "asan-all-monitors", "kind": "asan-all", "profile": "monitor", "tier": "asan", "shards": shards,
             "wall_timeout_s": timeout}
 
